@@ -6,7 +6,7 @@ from checks.common import absorb, replay, tlc_emit, validate_traces
 
 LEVEL = "model_checking"
 
-INV = "INVARIANTS PathMatchesStack RetSound BindCorrect OrderIndependent ChainShape"
+INV = "INVARIANTS PathMatchesStack RetSound BindCorrect BoundToLoadedSet OrderIndependent ChainShape"
 
 
 def run(ck):
@@ -17,7 +17,7 @@ def run(ck):
     else:
         cfgs = [('{"a","b","c"}', 3), ('{"a","b","c","d"}', 1)]
     for scripts, mc in cfgs:
-        cfg = ("CONSTANTS Scripts = %s\nMissing = \"zz\"\nMaxCalls = %d\nSPECIFICATION Spec\n%s Emit\n"
+        cfg = ("CONSTANTS Scripts = %s\nMissing = \"zz\"\nMaxCalls = %d\nRelink = FALSE\nSPECIFICATION Spec\n%s Emit\n"
                "CHECK_DEADLOCK FALSE\n") % (scripts, mc, INV)
         res, rows = tlc_emit(ck, "Loader", cfg, "Loader(%s,calls<=%d)" % (scripts, mc), timeout=1700, xmx="24g")
         r = replay(ck, "replay-loader", rows, "loader-sets")
@@ -26,8 +26,14 @@ def run(ck):
         if r["extra"]["orders_observed"] < 0.9 * r["extra"]["orders_wanted"]:
             raise vlib.Broken("could not steer Go's map iteration to the wanted visit orders (%s of %s)"
                               % (r["extra"]["orders_observed"], r["extra"]["orders_wanted"]))
+    # a hot reload: the scripts carry the bindings of an earlier load; after linking, every call of an accepted script is bound into this set
+    cfg = ("CONSTANTS Scripts = {\"a\",\"b\",\"c\"}\nMissing = \"zz\"\nMaxCalls = %d\nRelink = TRUE\nSPECIFICATION Spec\n%s\n"
+           "CHECK_DEADLOCK FALSE\n") % (1 if q else 2, INV)
+    res = vlib.tlc("Loader", cfg, timeout=1700, xmx="24g")
+    vlib.tlc_must_pass(res, "Loader relink")
+    ck.add_tlc(res, "Loader(3 scripts, stale bindings from an earlier load)")
     # liveness of the model on a small instance (no state constraint)
-    cfg = ("CONSTANTS Scripts = {\"a\",\"b\"}\nMissing = \"zz\"\nMaxCalls = 2\nSPECIFICATION FairSpec\n%s\n"
+    cfg = ("CONSTANTS Scripts = {\"a\",\"b\"}\nMissing = \"zz\"\nMaxCalls = 2\nRelink = FALSE\nSPECIFICATION FairSpec\n%s\n"
            "PROPERTY Terminates\nCHECK_DEADLOCK FALSE\n") % INV
     res = vlib.tlc("Loader", cfg, workers=4, timeout=600)
     vlib.tlc_must_pass(res, "Loader termination")
@@ -40,7 +46,7 @@ def run(ck):
         r = vlib.vh_json(["record-loader", "-seed", str(ck.seed * 7919 + k), "-n", str(n), "-scripts", str(k),
                           "-calls", str(c), "-out", tr])
         absorb(ck, r, "loader-record(%d scripts)" % k)
-        tcfg = ("CONSTANTS Scripts = {\"a\",\"b\",\"c\",\"d\",\"e\",\"f\"}\nMissing = \"zz\"\nMaxCalls = 3\n"
+        tcfg = ("CONSTANTS Scripts = {\"a\",\"b\",\"c\",\"d\",\"e\",\"f\"}\nMissing = \"zz\"\nMaxCalls = 3\nRelink = FALSE\n"
                 "SPECIFICATION TraceSpec\n%s\nCONSTRAINT HighWater\nPOSTCONDITION Accepted\nCHECK_DEADLOCK FALSE\n") % INV
         total += validate_traces(ck, "TraceLoader", tcfg, tr, "loader-%d" % k, lambda rec: rec["ev"] == "config")
     ck.cov["rule"] = ("S->I: every (script set, visit order) state explored by TLC (all sets of 3 scripts, <=2 (quick) / "
